@@ -1024,6 +1024,14 @@ class Cx(object):
                 else:
                     raise OutOfReach('operator* on %r' % (lv,))
             return out
+        if name == 'operator!':
+            for s1, lv in self.eval(st, argn[0]):
+                if isinstance(lv, LVal) and lv.ct.kind == 'obj' and 'optional<' in lv.ct.name:
+                    eng = self.obj_attr(s1, self._lv_path(lv, s1), 'engaged', z3.BoolSort())
+                    out.append((s1, CBool(z3.Not(eng))))
+                else:
+                    raise OutOfReach('operator! on %r' % (lv,))
+            return out
         raise OutOfReach('operator call %s' % name)
 
     def call(self, st, callee, argn, node):
@@ -1246,6 +1254,7 @@ class Cx(object):
         q = self.ix.qualname(fn)
         out = []
         for s, bound in self.bind_params(st, fn, argn, c):
+            self.trace_member_call(s, fn, bound)
             a0 = self.arg_values(s, bound)
             a0['__fn'] = fn
             if this is not None:
@@ -1286,11 +1295,28 @@ class Cx(object):
         return out
 
     # ----- inlining
+    TRACED = ('do_encode', 'do_decode', 'do_decode_resize', 'do_decode_in_place', 'do_decode_greedy')
+
+    def trace_member_call(self, st, fn, bound):
+        """generated struct codecs call one do_encode / do_decode* per member, in declaration order: the cursor at each
+        such call (made directly by the function under verification) is recorded for the layout obligations (C03)"""
+        if len(self.fn_stack) != 1 or fn.get('name') not in self.TRACED:
+            return
+        for key in ('data', 'pos'):
+            if key in bound:
+                p, v = bound[key]
+                if isinstance(v, LVal):
+                    v = self.load(st, v)
+                if isinstance(v, CPtr):
+                    st.trace.append((fn.get('name'), v.addr))
+                return
+
     def inline(self, st, fn, argn, node, this=None):
         if len(self.fn_stack) > self.inline_depth:
             raise OutOfReach('inline depth exceeded at %s' % self.ix.qualname(fn))
         out = []
         for s, bound in self.bind_params(st, fn, argn):
+            self.trace_member_call(s, fn, bound)
             env = {}
             for name, (p, v) in bound.items():
                 pct, pref = parse_type(self, p.get('type', {}))
